@@ -16,7 +16,7 @@ RULE = ("call sets of 1-12 records x sample maps, each run (i) clean, non-strict
         "(strict and projection exclude each other on the command line). Compared with the model of the run: exit "
         "status, stdout (exact integers without projection, within 0.5e-6+1e-9*records with), the 'Skipped X/Y' summary, "
         "the contig:position named in the error, empty stdout on every failure. On the binary alone: total(stdout) + X "
-        "= Y = number of records. non-trivial = a run with a fault or with at least one skipped record; uncompressed BCF streams cut inside a record (1 byte or more into it) must fail with empty stdout; records whose GT value is no genotype ('0/x', '1/', 'A') in any column are corrupt")
+        "= Y = number of records. non-trivial = a run with a fault or with at least one skipped record; uncompressed BCF streams cut inside a record (1 byte or more into it) must fail with empty stdout; records whose GT value is no genotype ('0/x', '1/', 'A') in any column are corrupt; the runs repeated by path, with -q / -v and under logging / colour / locale environment variables (invocation_variants)")
 
 
 def check(rep, tier, seed):
@@ -134,6 +134,11 @@ def check(rep, tier, seed):
             rep.fail(kind="property-oracle", cls="run-loop:large-cohort-conservation", case="%d samples, %d records, --project-shape %d" % (n, nrec, m + 1),
                      argv=["sfs"] + job[0], stdin=job[1].decode()[:300000], observed={"rc": rc, "stdout": so.decode(errors="replace")[:200], "skipped": skipped},
                      expected="finite values with mass + skipped = %d" % nrec, detail="mass + skipped != records (or non-finite values) for a cohort at the factorial-table seam / of hundreds of samples")
+    # the form of the invocation and the environment are no part of the run: the same command by path, with -q / -v, with
+    # logging / colour / locale variables set gives the same stdout, exit status and (for the environment) the same stderr -
+    # the skip summary included
+    from common import invocation_variants
+    invocation_variants(rep, "run-loop:invocation-form", [j for j in jobs if not any(a in ("-v", "-vv", "-q", "-qq") for a in j[0])], rng, n=6 if tier == "quick" else 40)
     exps = run_model([m for m in mcases if m is not None])
     it = iter(exps)
     exps = [next(it) if m is not None else None for m in mcases]
